@@ -1,7 +1,7 @@
 CONSTANTS
   N = 2
   MaxMem = 2
-  MaxReq = 3
+  MaxReq = 2
   Family = "mixed"
   FlagFamily = "stops"
   WithBad = FALSE
